@@ -3,8 +3,14 @@
 package daemon
 
 import (
+	"context"
+
 	"github.com/AliyunContainerService/terway/pkg/aliyun/client"
+	"github.com/AliyunContainerService/terway/pkg/eni"
+	"github.com/AliyunContainerService/terway/pkg/k8s"
+	"github.com/AliyunContainerService/terway/pkg/storage"
 	"github.com/AliyunContainerService/terway/rpc"
+	"github.com/AliyunContainerService/terway/types"
 	"github.com/AliyunContainerService/terway/types/daemon"
 )
 
@@ -20,3 +26,39 @@ func VerifCheckInstance(limit *client.Limits, daemonMode string, config *daemon.
 
 // VerifDefaultForNetConf exposes defaultForNetConf to the verification harness.
 func VerifDefaultForNetConf(netConf []*rpc.NetConf) error { return defaultForNetConf(netConf) }
+
+// VerifService is what the harness drives: the RPC surface plus one GC pass.
+type VerifService interface {
+	AllocIP(ctx context.Context, r *rpc.AllocIPRequest) (*rpc.AllocIPReply, error)
+	ReleaseIP(ctx context.Context, r *rpc.ReleaseIPRequest) (*rpc.ReleaseIPReply, error)
+	GetIPInfo(ctx context.Context, r *rpc.GetInfoRequest) (*rpc.GetInfoReply, error)
+	VerifGCPods(ctx context.Context) error
+}
+
+func (n *networkService) VerifGCPods(ctx context.Context) error { return n.gcPods(ctx) }
+
+// VerifNewNetworkService assembles a networkService from injected parts (what the builder does
+// around its cloud / kube clients).
+func VerifNewNetworkService(daemonMode string, k k8s.Kubernetes, db storage.Storage, mgr *eni.Manager, ipamType types.IPAMType, v4, v6 bool) VerifService {
+	return &networkService{daemonMode: daemonMode, k8s: k, resourceDB: db, eniMgr: mgr, ipamType: ipamType, enableIPv4: v4, enableIPv6: v6}
+}
+
+// VerifInitResourceDB opens the on-disk resource database exactly as the builder does.
+func VerifInitResourceDB() (storage.Storage, error) {
+	b := &NetworkServiceBuilder{service: &networkService{}}
+	b.InitResourceDB()
+	return b.service.resourceDB, b.err
+}
+
+// VerifLoadPodResources is the start-up path from stored records to what eni.Manager.Run receives.
+func VerifLoadPodResources(db storage.Storage, attached []*daemon.ENI) ([]daemon.PodResources, error) {
+	objList, err := db.List()
+	if err != nil {
+		return nil, err
+	}
+	attachedENIID := map[string]*daemon.ENI{}
+	for _, e := range attached {
+		attachedENIID[e.ID] = e
+	}
+	return filterENINotFound(getPodResources(objList), attachedENIID), nil
+}
